@@ -394,6 +394,8 @@ def op_replace_input(w, a, b, c, d):
     k = len(n.inputs)
     idx = (b % k) if (k and d & 1) else (b % (k + 2)) - 1
     v = None if c % 7 == 6 else w.value(c)
+    if (d >> 4) % 11 == 6:
+        v = ["junk", 7, n][(d >> 9) % 3]  # not a Value
     n.replace_input_with(idx, v)
 
 
@@ -757,7 +759,9 @@ def op_value_name(w, a, b, c, d):
     v = w.value(a)
     if v is None:
         return None
-    if (d >> 1) % 4 == 3 and isinstance(v.const_value, ir.serde.TensorProtoTensor):
+    if (d >> 3) % 13 == 5:
+        v.name = [123, 4.5, ("t",), b"bytes"][(d >> 8) % 4]  # not a string (rejected call of the TypeError class)
+    elif (d >> 1) % 4 == 3 and isinstance(v.const_value, ir.serde.TensorProtoTensor):
         v.name = REJECTED_TENSOR_NAME
     elif d & 1:
         g = v.graph
